@@ -788,7 +788,7 @@ func execRun(c *hx.Case, ops []opJ) (*hx.Result, error) {
 	for {
 		total, ok := 0, true
 		counts := make([]int, nops)
-		for i, rc := range order {
+		for _, rc := range order {
 			rc.mu.Lock()
 		}
 		for i, rc := range order {
